@@ -78,6 +78,7 @@ static void emit_snap(void) {
    written.  Words are recognised by address arithmetic only (segment header layout), pages and heaps get small ids on first
    sight, list heads are given as (page id, block index, remainder). */
 #include <sys/mman.h>
+static int conc_quiet(void) { return !vf_active; }     /* no virtual thread besides the main one is running */
 static int steps_on = 0;
 static long nsteps = 0;
 #define STEP_MAXSEG 128
@@ -659,6 +660,7 @@ int main(int argc, char** argv) {
     else if (!strcmp(argv[i], "--size") && i + 2 < argc) { blk_lo = (size_t)atol(argv[++i]); blk_hi = (size_t)atol(argv[++i]); }
     else if (!strcmp(argv[i], "--sched") && i + 1 < argc) schedfile = argv[++i];
     else if (!strcmp(argv[i], "--steps") && i + 1 < argc) { steps_on = atoi(argv[++i]); }
+    else if (!strcmp(argv[i], "--segs") && i + 1 < argc) { seg_snap_on = 1; seg_snap_every = atoi(argv[++i]); if (seg_snap_every < 1) seg_snap_every = 1; seg_quiet = conc_quiet; }
     else if (!strcmp(argv[i], "--snap") && i + 1 < argc) { snapshots_on = 1; snap_rate = atoi(argv[++i]); if (snap_rate < 1) snap_rate = 1; }
     else { fprintf(stderr, "usage: drv_conc --out F [--prog P] [--seed S] [--runs N] [--strategy random|pct|guided|replay|dfs] [--sched file]\n"); return 2; }
   }
